@@ -572,8 +572,19 @@ func (p *Parser) ParsingIter() iter.Seq[*ParserReply] {
 		var expr Sexp
 		var err error
 		const depth0 int = 0
+		flushed := false
 		for {
 			expr, err = p.ParseExpression(depth0)
+			if err == nil && expr == SexpEnd && !flushed && p.lexer.pendingAtEnd() {
+				// The text ended, at top level, in the middle of a token
+				// (no trailing whitespace). Terminate the token as a final
+				// newline would have, so that the last token is not lost.
+				flushed = true
+				err = p.lexer.LexNextRune('\n')
+				if err == nil {
+					continue
+				}
+			}
 			if err != nil || expr == SexpEnd {
 				p.sendMe.Err = err
 				yield(p.sendMe)
